@@ -162,4 +162,25 @@ CHECKS = {
             job("stop", "c17", ["TestC17EarlyStop"], 600, 6000, 2, 10),
         ],
     },
+    "C15": {
+        "level": "exploration",
+        "exhaustive_claim": True,
+        "manifest": {
+            "technique": "exhaustive enumeration inside the property-based harness: every header byte 0..99 x every value 0..255 on valid base images of all 8 page sizes, judged by a three-valued reference validator (must-reject / must-accept / either) derived from the statement; the same mutations applied under a long-lived handle (header re-read); real SQLite-written WAL (with unmerged WAL content), UTF-16le/be and plain files, and a live switch to WAL",
+            "level_text": "Complete enumeration of single-byte header mutations (204k images) plus the re-read variants, with an explicit oracle: rejected classes must error and deliver no rows, harmless fields must be accepted with identical rows, grey fields must not change rows if accepted. Multi-byte combinations are not enumerated.",
+            "level_note": "The validator encodes my reading of the statement: legal-but-wrong page sizes are excluded (that is a corrupt file, C05); write version, payload fractions, schema formats 0/1, unknown encodings, reserved-for-expansion and the vacuum fields are 'either'. Base images come from the independent builder and are accepted by SQLite 3.40.1 (integrity_check) in the run.",
+        },
+        "rule": ("one case per (page size, header offset, byte value != original): open through the memory pager, Tables, Select on a rowid and a WITHOUT ROWID table, SelectRowid, PKSelect, low-level scan under "
+                 "explicit RLock; re-read: same mutations written into the image after a successful read on an open handle (page sizes 512/4096/65536 quick, all thorough); real: 6 kinds x 4 page sizes "
+                 "written by SQLite. Non-trivial = every mutation that changes the byte and is not excluded (for re-read: the must-reject ones). Distinct by key (page size, offset, value)."),
+        "assumptions": ["system libsqlite3 (3.40.1) writes the WAL/UTF-16 files and validates the base images", "schema format 1 files cannot be produced with this SQLite build (legacy_file_format is a no-op); covered header-only"],
+        "min_nontrivial": {"quick": 200000, "thorough": 200000},
+        "required_classes": ["must-reject:magic", "must-reject:read-version", "must-reject:reserved-space", "must-reject:text-encoding", "must-reject:schema-format", "must-reject:page-size", "must-accept:change-counter", "must-accept:user-version", "reread:must-reject", "real:wal-open", "real:utf16le", "real:switch-to-wal"],
+        "timeout": {"quick": 300, "thorough": 1500},
+        "jobs": [
+            job("enum", "c15", ["TestC15HeaderEnum", "TestC15Mutation"], 1, 1, 4, 8, run="^TestC15HeaderEnum$"),
+            job("reread", "c15", ["TestC15RereadEnum", "TestC15Reread"], 1, 1, 4, 8, run="^TestC15RereadEnum$"),
+            job("real", "c15", ["TestC15RealEnum", "TestC15Real"], 1, 1, 1, 1, run="^TestC15RealEnum$"),
+        ],
+    },
 }
